@@ -460,6 +460,8 @@ def run(ck: Check) -> None:
             ck.mismatch_kinds["file-history"] = ck.mismatch_kinds.get("file-history", 0) + 1
             if len(ck.mismatches) < 10:
                 ck.mismatches.append({"corr": "corr:file-histories/results+final-contents", "line": ln[:1500], "impl": bad, "model": ans[:300], "tag": "file-history", "meta": {}, "stdout_encoding": "utf-8"})
+    from .. import gpgdirected
+    gpgdirected.run(ck, impl, d)
     # a stored file opened in the interactive editor and written out unchanged (menu: 0 = write) is persisted like any other: same value, canonical bytes,
     # every signature entry as it was (displaying the metadata, or "tidying" on save, changes nothing)
     import subprocess, sys
